@@ -227,7 +227,10 @@ def _child_c04(unit: dict) -> dict:
         for j, chunk in enumerate(chunks):
             d_j = os.path.join(tmp, f"chunk{j}")
             paths = write_jobs(d_j, chunk)
-            out_j = os.path.join(tmp, f"out{j}")
+            # the usual way of working is to keep one output directory and
+            # overwrite <job>.puml / <job>_model.json in place
+            out_j = os.path.join(tmp, "out_chunks" if unit.get("same_out")
+                                 else f"out{j}")
             snap = os.path.join(tmp, f"snap{j}.json")
             st = run_cli_step(dict(
                 base, uuid_seed=unit["uuid_seed"] + 100 + j,
